@@ -46,6 +46,18 @@ theorem run_shift (I : R) (k lo : Nat) (hlo : lo < 2 ^ k) (gs : List Gate) (w : 
     simp only [List.map_cons, run]
     rw [ih, applyGate_shift I k lo hlo]
 
+/-- a gate that fits on `n` qubits, shifted by `k`, fits on `n + k` qubits -/
+theorem gateOk_shift (n k : Nat) (g : Gate) (h : gateOk n g = true) : gateOk (n + k) (g.shift k) = true := by
+  cases g <;> simp only [gateOk, Gate.shift, Bool.and_eq_true, decide_eq_true_eq, bne_iff_ne, ne_eq] at h ⊢
+  all_goals omega
+
+theorem allOk_shift (n k : Nat) (gs : List Gate) (h : gs.all (gateOk n) = true) :
+    (gs.map (Gate.shift k)).all (gateOk (n + k)) = true := by
+  rw [List.all_eq_true] at h ⊢
+  intro g hg
+  obtain ⟨g0, hg0, rfl⟩ := List.mem_map.1 hg
+  exact gateOk_shift n k g0 (h g0 hg0)
+
 /-- shifting back: `Gate.shift` is injective, index by index -/
 theorem shift_zero (g : Gate) : g.shift 0 = g := by cases g <;> rfl
 
